@@ -54,6 +54,15 @@ impl FangsList {
         }
     }
 
+    pub(super) fn len(&self) -> usize {
+        self.0.len()
+    }
+    /// put `outer`'s fangs outside of the ones only `self` has
+    pub(super) fn inherit(&mut self, outer: &Self) {
+        self.0.retain(|(id, _)| outer.0.iter().all(|(_id, _)| _id != id));
+        self.0.extend(outer.0.iter().cloned());
+    }
+
     /// yield from most inner fangs
     fn into_iter(self) -> impl Iterator<Item = Arc<dyn Fangs>> {
         self.0.into_iter()
